@@ -245,7 +245,9 @@ def assignments(msg: J, layer: J, r: random.Random, n: int = 6) -> List[Dict[str
                     if isinstance(val, (bytes, str)):
                         v[p["name"]] = 8 * len(val) * (2 if base == "A_UNICODE2STRING" else 1)
                     elif isinstance(val, int):
-                        v[p["name"]] = r.choice([16, 24, 32])
+                        # (values of these objects fit into 8 bits; the declared length need
+                        # not be a multiple of eight)
+                        v[p["name"]] = r.choice([16, 24, 32, 9, 12, 13, 20])
         out.append(v)
     return out
 
@@ -381,6 +383,21 @@ def probe_layer() -> J:
     rq("p_lenkey2", [sid(), {"p": "LENGTH-KEY", "name": "lk", "byte": None, "bit": None, "dop": "u8",
                              "id": "LK.p_lenkey2.lk"},
                      p_value("num", "pl_uint")], "length-key-uint")
+    # signed numbers whose length comes from a key (the sign bit is where the key says), and such
+    # an object at a bit position
+    dobjs.append(dop("pl_int", dct_paramlen("A_INT32", "LK.p_lenkey3.lk")))
+    rq("p_lenkey3", [sid(), {"p": "LENGTH-KEY", "name": "lk", "byte": None, "bit": None, "dop": "u8",
+                             "id": "LK.p_lenkey3.lk"},
+                     p_value("num", "pl_int"), u8const("tail", 0x42)], "length-key-int")
+    dobjs.append(dop("pl_int1c", dct_paramlen("A_INT32", "LK.p_lenkey4.lk", enc="1C")))
+    rq("p_lenkey4", [sid(), {"p": "LENGTH-KEY", "name": "lk", "byte": None, "bit": None, "dop": "u8",
+                             "id": "LK.p_lenkey4.lk"},
+                     p_value("num", "pl_int1c")], "length-key-int-ones-complement")
+    dobjs.append(dop("pl_uint_b", dct_paramlen("A_UINT32", "LK.p_lenkey5.lk")))
+    rq("p_lenkey5", [sid(), {"p": "LENGTH-KEY", "name": "lk", "byte": None, "bit": None, "dop": "u8",
+                             "id": "LK.p_lenkey5.lk"},
+                     p_value("num", "pl_uint_b", byte=2, bit=3), u8const("tail", 0x42)],
+       "length-key-uint-at-bit-position")
     # RESERVED bits that start inside a byte and cross its end, followed by an implicitly
     # positioned parameter
     rq("p_reserved_bits", [sid(), {"p": "RESERVED", "name": "rsv", "byte": None, "bit": 4, "bits": 8},
